@@ -44,6 +44,9 @@ CHECKS = {
  "C09": dict(level="exploration", ref="7/C09",
    text="Server half: the full product TLS {plaintext, after STARTTLS, implicit} x AllowInsecureAuth x backend {AuthSession, plain} in every batch, scripted 1-3 step sasl.Server, 1-3 AUTH attempts per connection that go straight, send bad base64 or '*' at a drawn step, name an unknown mechanism or cut the connection, AUTH before the greeting and STARTTLS between attempts. Oracles: AUTH advertised exactly when the connection permits it and the backend supports it; on a non-permitted connection AUTH is 5xx and neither Session.Auth nor sasl.Server.Next is ever called; otherwise Next receives exactly the base64-decoded octets in order (nil for no initial response, empty for '='); after 235 every AUTH is 503 with no backend call until STARTTLS; after a failed/malformed/cancelled exchange the NOOP marker is executed and a fresh AUTH is not 503. Client half: real Client.Auth with a scripted sasl.Client against the same real server (plaintext, STARTTLS, implicit TLS): responses and challenges recorded on both sides agree octet for octet, a mechanism error cancels with '*' and the next NOOP succeeds, Auth returns nil iff the server ended with 235, else an *SMTPError with its code.",
    note="nil (as opposed to empty) responses from a client mechanism are not generated. Reply codes of failed exchanges are judged only as 'not positive'."),
+ "C10": dict(level="exploration", ref="7/C10",
+   text="Server half: the systematic product pre-history {greeted, authenticated, mid-transaction, mid-BDAT with a parked delivery} x injected plaintext {absent, in the STARTTLS segment, in a later segment before the ClientHello} x TLS {available, not configured, already active}; the raw driver completes a real crypto/tls handshake and sends a drawn tail of in-TLS commands. Oracles on a completed upgrade: no injected bait address reaches the backend, in-TLS reply count = in-TLS command count, MAIL before the new EHLO and RCPT are 5xx, AUTH is not 503, every plaintext session was logged out before the first session that sees TLS, EHLO in TLS no longer advertises STARTTLS; STARTTLS is advertised and accepted iff TLS is configured and not active. Client half: real client via NewClientStartTLS, DialStartTLS and package-level SendMail (both through the VerifDial hook) against a stub server x 7 behaviours x 3 APIs. Oracles: a tap on the raw socket shows nothing but EHLO/HELO/STARTTLS/QUIT before the first TLS record; the stub never sees MAIL/RCPT/AUTH/DATA/content in plaintext; every misbehaviour ends in an API error; on an honest upgrade the first in-TLS command is EHLO and MAIL parameters follow the in-TLS capability list, which differs from the plaintext one (this also catches an injected reply being consumed).",
+   note="After a failed handshake nothing is judged except C08's rules. Package-level SendMail uses default certificate verification, so against the self-signed simulated peer only its failure modes are reachable."),
  "C01": dict(level="exploration", ref="7/C01",
    text="Seeded search plus a systematic sweep of all 5461 bodies over the byte classes {'.',CR,LF,other} up to length 6, each run under a drawn transport segmentation, server short-read plan and backend read-size plan; the octets and terminal error the real dataReader hands the backend are compared with an RFC 5321 reference unstuffer. Sampling, not proof: evidence of byte-exactness over the explored streams x schedules.",
    note="Trusts: the reference unstuffer (cross-checked against a reference stuffer), Go's testing/synctest fake clock, go1.26.8 building go-smtp the same way go1.23.5 does."),
